@@ -78,10 +78,12 @@ corr.CUSTOM_GEN["Average"] = gen_average
 def dc_ts(d, k):
     seg_k = k if d == 2 else k * d
     return [Fr(float(t) / seg_k) for t in range(1, seg_k + 1)]
-def gen_decasteljau(g, gn, nmax=7):
+def gen_decasteljau(g, gn, nmax=7, exact_small=True):
     gd = corr.group(gn)
     N = g.r.choice([0, 1, 2, 3, 3, 4, 5, 5, 6, 7, 8, 9][:nmax + 4]); N = min(N, nmax)
     d = g.r.randint(2, max(2, N + 1)); k = g.r.choice([0, 1, 1, 2, 2, 3]); closed = g.r.choice([0, 1])
+    if not gn.startswith("R") and exact_small:       # exact rationals grow with every nested rplus / rminus: keep the non-commutative cases small
+        N = min(N, 4); d = min(d, 3); k = min(k, 1)
     if gn.startswith("R"): pts = [[Fr(g.r.randint(-99, 99), g.r.choice([1, 2, 3, 7])) for _ in range(gd.rep)] for _ in range(N)]
     else: pts = [small_elem(g, gd, True) for _ in range(N)]
     g.note("dc_N:%d" % N); g.note("dc_d:%d" % d); g.note("dc_closed:%d" % closed)
